@@ -84,14 +84,29 @@ def undo_renames(trees):
             old_name, new_name = mq.rsplit(".", 1)[-1], nq.rsplit(".", 1)[-1]
             if any(isinstance(n, FuncT) and n.name == old_name for t in trees.values() for n in ast.walk(t)):
                 continue   # the old name is in use elsewhere: do not merge
-            for t in trees.values():
-                for n in ast.walk(t):
-                    if isinstance(n, FuncT) and n.name == new_name:
-                        n.name = old_name
-                    elif isinstance(n, ast.Attribute) and n.attr == new_name:
-                        n.attr = old_name
-                    elif isinstance(n, ast.Name) and n.id == new_name and "." not in nq:
+            fn_node = new[nq]
+            owner = None
+            for cand in ast.walk(tree):
+                b_ = getattr(cand, "body", None)
+                if isinstance(b_, list) and any(fn_node is x for x in b_):
+                    owner = cand
+            if isinstance(owner, FuncT):
+                # a nested function: its name is a local of the enclosing function
+                if any(isinstance(n, ast.Name) and n.id == old_name for n in ast.walk(owner)):
+                    continue
+                fn_node.name = old_name
+                for n in ast.walk(owner):
+                    if isinstance(n, ast.Name) and n.id == new_name:
                         n.id = old_name
+            else:
+                for t in trees.values():
+                    for n in ast.walk(t):
+                        if isinstance(n, FuncT) and n.name == new_name:
+                            n.name = old_name
+                        elif isinstance(n, ast.Attribute) and n.attr == new_name:
+                            n.attr = old_name
+                        elif isinstance(n, ast.Name) and n.id == new_name and isinstance(owner, ast.Module):
+                            n.id = old_name
             renamed[f"{mod}:{nq}"] = mq
     return renamed
 
